@@ -356,6 +356,7 @@ func Gen(w *bufio.Writer, seed uint64, tier string, prop string) {
 		f := Build(r, p)
 		fmt.Fprintf(w, "CAB realsign %s %s\n", hx.Hex(f), []string{"p256", "rsa", "p384"}[i])
 	}
+	genReal(w, r, tier, prop) // structured cabinets (real.go)
 }
 
 func classify(err error) string {
